@@ -167,6 +167,13 @@ template <class T> static std::string fstate (const Frustum<T>& f)
     T a[7] = {f.nearPlane (), f.farPlane (), f.left (), f.right (), f.top (), f.bottom (), (T) (f.orthographic () ? 1 : 0)};
     return jlist (a, 7);
 }
+// localToScreen / localToScreenExc are protected: reached the way a client subclass reaches them
+template <class T> struct FrP : public Frustum<T>
+{
+    FrP (const Frustum<T>& f) : Frustum<T> (f) {}
+    Vec2<T> l2s (const Vec2<T>& p) const { return this->localToScreen (p); }
+    Vec2<T> l2sExc (const Vec2<T>& p) const { return this->localToScreenExc (p); }
+};
 template <class T> static void frusta (Gen<T>& g, int it)
 {
     const T big = std::numeric_limits<T>::max ();
@@ -185,6 +192,8 @@ template <class T> static void frusta (Gen<T>& g, int it)
     rec ("projectionMatrix", "[]", side ("", 1, jv (f.projectionMatrix ())), guarded ([&] { return side ("", 1, jv (f.projectionMatrixExc ())); }));
     Vec3<T> p (g.full (), g.full (), (it % 7 == 0) ? (T) 0 : (it % 7 == 1 ? -tiny : -(T) (1 + std::fabs ((double) g.full ()))));
     rec ("projectPointToScreen", jv (p), side ("", 1, jv (f.projectPointToScreen (p))), guarded ([&] { return side ("", 1, jv (f.projectPointToScreenExc (p))); }));
+    { FrP<T> fp (f); Vec2<T> lp (g.full (), (it % 6 == 0) ? cy : g.full ());
+      rec ("localToScreen", jv (lp), side ("", 1, jv (fp.l2s (lp))), guarded ([&] { return side ("", 1, jv (fp.l2sExc (lp))); })); }
     T zn = (T) ((it % 3 == 0) ? 1.0 : (double) g.full ());
     rec ("normalizedZToDepth", jv (zn), side ("", 1, jv (f.normalizedZToDepth (zn))), guarded ([&] { return side ("", 1, jv (f.normalizedZToDepthExc (zn))); }));
     long zi = g.rng.range (0, 1000);
